@@ -18,16 +18,19 @@ META = {
 
 
 def queries(tier, seed, build):
-    q = Query("c14-crypt-ra", "api_ra.c", units=API_UNITS, models=["libc.c", "method_stub.c", "alloc.c"],
-              defs=["MAX_S=6", "STUB_MAXLEN=8"], unwind=6,
-              loops=[("^harness$", None, 520, False), ("^vf_oracle_init$|^stub$", None, 12, False)] + lib_loops(12),
-              timeout=900)
-    q.loops_optional = True
-    q.str_bound = 12
+    qs = []
+    for kind in range(5):
+        q = Query("c14-crypt-ra-k%d" % kind, "api_ra.c", units=API_UNITS, models=["libc.c", "method_stub.c", "alloc.c"],
+                  defs=["MAX_S=6", "STUB_MAXLEN=8", "KIND=%d" % kind], unwind=6,
+                  loops=[("^harness$", None, 520, False), ("^vf_oracle_init$|^stub$", None, 12, False)] + lib_loops(12),
+                  timeout=900)
+        q.loops_optional = True
+        q.str_bound = 12
+        qs.append(q)
     q2 = Query("c14-gensalt-ra", "gensalt_ra.c", units=GENSALT_UNITS, models=["libc.c"],
                defs=["MAX_RB=20", 'PREFIX_RA="$6$"'], unwind=6, loops=[("^harness$", None, 200, False)] + lib_loops(200),
                timeout=900, malloc_may_fail=True, flags=["--memory-leak-check"])
     q2.loops_optional = True
     q2.str_bound = 200
     q2.build = build.sub("full")
-    return [q, q2]
+    return qs + [q2]
